@@ -80,5 +80,5 @@ def main(tier, replay=None):
     res.assumptions = ["virtual kernel (appendix A)", "memory errors are those AddressSanitizer/UBSan detect at byte granularity (exact-size buffers and poisoned slack in the SEQ harnesses)",
                        "2^31-byte inputs are declared (netstring/number fields), not materialised"]
     res.require_nonzero("evaluations", "cases_smtpd", "cases_qmtpd", "cases_inject", "cases_report", "accepted_inputs", "rejected_inputs", "smtp_K", "smtp_D")
-    lib_conformance(res, rd, src, ['io', 'bytes', 'num', 'map', 'cdb', 'date'], tier, asan=True)
+    lib_conformance(res, rd, src, ['io', 'bytes', 'num', 'map', 'cdb', 'date', 'alloc'], tier, asan=True)
     return res.finish()
